@@ -391,6 +391,9 @@ func NewModels(w *World) *Models {
 		m.Ent.Orders[k.StartPO] = o
 		m.Ent.NextID = k.StartPO + 1
 	}
+	if k.WhitelistGov {
+		m.Ent.Whitelist[ModuleAddr(govtypes.ModuleName).String()] = true
+	}
 	for _, wl := range k.Whitelist {
 		m.Ent.Whitelist[w.Actors[wl].Bech()] = true
 	}
